@@ -190,8 +190,10 @@ class CaseTag(Tag):
             next(stream)
             try:
                 expressions.append(parse_primitive(self.env, stream))
-            except LiquidSyntaxError:
-                # Use expressions we have so far an discard the rest.
+            except LiquidSyntaxError as err:
+                # Use expressions we have so far an discard the rest. Raise, warn
+                # or ignore the error according to the current mode.
+                self.env.error(err)
                 return expressions
 
         return expressions
